@@ -165,6 +165,12 @@ def run_call(call, wbss, tasks, objno):
     elif e[0] == 'children':
         target = tasks[e[1]].children
         given = list(target)
+    elif e[0] in ('succs', 'preds', 'allsuccs', 'allpreds', 'allkids', 'allparents'):
+        # lists that may MIX tasks of several WBSs and of none (the external mark is decided row by row)
+        attr = {'succs': 'successors', 'preds': 'predecessors', 'allsuccs': 'all_successors', 'allpreds': 'all_predecessors',
+                'allkids': 'all_children', 'allparents': 'all_parents'}[e[0]]
+        target = getattr(tasks[e[1]], attr)
+        given = list(target)
     else:
         raise ValueError(e[0])
     res = {'given': [objno.get(id(t), -1) for t in given]}
